@@ -76,6 +76,77 @@ def build(d, m, real=False):
     return cls(schema, resolver=res, format_checker=checker_for(js, m.get("fmt"))), res
 
 
+class Turns(object):
+    """turn-passing scheduler: slot k of `sched` belongs to one member; a member holds the turn from the moment its slot
+    starts until it reaches its next event (or finishes), so the threads execute exactly the interleaving TLC chose"""
+    def __init__(self, sched):
+        self.sched, self.pos, self.holder = sched, 0, None
+        self.cond = threading.Condition()
+        self.problem = None
+
+    def before_event(self, me):
+        with self.cond:
+            if self.holder == me:
+                self.holder = None
+                self.cond.notify_all()
+            while not (self.holder is None and self.pos < len(self.sched) and self.sched[self.pos] == me):
+                if self.problem or self.pos >= len(self.sched):
+                    self.problem = self.problem or "member %d performs more events than its script" % me
+                    self.cond.notify_all()
+                    raise RuntimeError(self.problem)
+                if not self.cond.wait(timeout=10):
+                    self.problem = "schedule cannot be followed (position %d, member %d waiting)" % (self.pos, me)
+                    self.cond.notify_all()
+                    raise RuntimeError(self.problem)
+            self.holder = me
+            self.pos += 1
+
+    def finished(self, me):
+        with self.cond:
+            if self.holder == me:
+                self.holder = None
+            self.cond.notify_all()
+
+
+def run_scheduled(d, grp, sched):
+    js = import_lib()
+    cls = draft_classes()[d]
+    turns = Turns(sched)
+
+    def make(me, m):
+        class Gated(js.RefResolver):
+            def push_scope(self, scope):
+                turns.before_event(me)
+                return super().push_scope(scope)
+
+            def pop_scope(self):
+                turns.before_event(me)
+                return super().pop_scope()
+
+            def resolve(self, ref):
+                turns.before_event(me)
+                return super().resolve(ref)
+        schema = copy.deepcopy(m["schema"])
+        res = Gated.from_schema(schema, id_of=cls.ID_OF, store=copy.deepcopy(m["store"]))
+        return cls(schema, resolver=res, format_checker=checker_for(js, m.get("fmt")))
+    vals = [make(i + 1, m) for i, m in enumerate(grp)]
+    out = [None] * len(grp)
+
+    def work(i):
+        try:
+            out[i] = [scen.canon(e) for e in vals[i].iter_errors(copy.deepcopy(grp[i]["instances"][0]))]
+        except Exception as e:  # noqa
+            out[i] = "%s: %s" % (type(e).__name__, str(e)[:80])
+        finally:
+            turns.finished(i + 1)
+    ts = [threading.Thread(target=work, args=(i,)) for i in range(len(grp))]
+    for t in ts:
+        t.start()
+    for t in ts:
+        t.join(30)
+    return out, turns.problem
+
+
 def solo(d, m):
     v, res = build(d, m, real=True)
     return [scen.canon(e) for e in v.iter_errors(copy.deepcopy(m["instances"][0]))]
@@ -111,7 +182,7 @@ def main(args):
                "recursive schemas); the script of each member's iteration is measured on the real code, TLC enumerates ALL "
                "interleavings of next() steps (MC_Interleave: invariant Independent; negative control SharedStack must be "
                "violated), and every maximal schedule is replayed on real iterators and compared with the solo runs; plus "
-               "threaded runs of the same members (tiny switch interval) compared with the solo runs. Non-trivial: a "
+               "event-level thread schedules: TLC enumerates every schedule of resolver events with <= %d preemptions (MC_Sched) and each is replayed on real threads whose resolvers block before every event until granted the turn; and unscheduled threaded runs (1 microsecond switch interval) compared with the solo runs." % (1 if quick else 2) + " Non-trivial: a "
                "schedule that switches iterators at least twice; distinct by (draft, group, schedule).")
     groups, meta = [], []
     for d in DRAFTS:
@@ -178,6 +249,31 @@ def main(args):
                                                          "errors_interleaved": got, "errors_alone": solos[gi], "crash": crashed})
         elif len(ck.samples) < 2 and switches >= 3:
             ck.sample({"draft": d, "schedule": ex["sched"], "errors_per_iterator": [len(x) for x in got]})
+    # ---- threads under a deterministic scheduler: TLC enumerates the event-level schedules with a bounded number of
+    # preemptions (MC_Sched); each member runs in a real thread whose resolver blocks before every event (push / pop /
+    # resolve) until the schedule grants it the turn
+    two = [(gi, m) for gi, m in enumerate(meta) if len(m[1]) == 2 and not any(x.get("default") for x in m[1])]
+    sgroups = [groups[gi] for gi, _ in two]
+    wd = tlc.workdir("c18s")
+    sf = os.path.join(wd, "groups.json")
+    json.dump(sgroups, open(sf, "w"))
+    rs = tlc.run("mc/MC_Sched.tla", cfg="mc/MC_Sched_%s.cfg" % args.tier, workers=16, timeout=3000, env={"SCEN_FILE": sf}, heap="6g")
+    tlc.cleanup("c18s")
+    if rs.violation:
+        raise tlc.MachineryFailure("event-level schedule model violated: " + rs.violation)
+    ck.add_tlc(rs)
+    for ex in rs.exports:
+        gi, (d, grp, table) = two[ex["g"] - 1]
+        want = solos.get(gi) or [solo(d, m) for m in grp]
+        got, problem = run_scheduled(d, grp, ex["sched"])
+        ck.replayed += 1
+        ck.count((d, gi, "events", tuple(ex["sched"])), True)
+        if problem or got != want:
+            ck.violation("thread_schedule_changes_errors", {"draft": d, "schemas": [m["schema"] for m in grp],
+                                                            "instances": [m["instances"][0] for m in grp],
+                                                            "event_schedule": ex["sched"], "errors_scheduled": got,
+                                                            "errors_alone": want, "problem": problem})
+    ck.notes["event_level_thread_schedules"] = len(rs.exports)
     # ---- threads: whole validations run concurrently, compared with the solo runs ---------------------------------
     old = sys.getswitchinterval()
     sys.setswitchinterval(1e-6)
